@@ -186,6 +186,10 @@ func execDecode(w []string, hx func(int) []byte) (string, bool) {
 		return fmt.Sprintf("%s %d.%d", stat(err), t.Unix(), t.Nanosecond()), true
 	case "etext", "ejson", "emcql", "eucql", "eucqlt":
 		return execErr(w, hx), true
+	case "ucqlum":
+		return execCustom(w, hx), true
+	case "mcqlm":
+		return execCustom(w, hx), true
 	case "ucqln":
 		// nullable destinations **T: null → nil pointer; else a FRESH value is allocated and decoded into; what the
 		// pointer pointed to before must stay as it was
@@ -863,6 +867,15 @@ func runDecode(r *vh.Rng, out *vh.Out, mult int) {
 		a = exec(op)
 		out.Case(op, a, "mcql/"+kind+"/"+okerr(a), true)
 	}
+	// user types implementing Unmarshaler / Marshaler
+	for i := 0; i < 60*mult; i++ {
+		col := []string{"uuid", "timeuuid"}[r.Intn(2)]
+		data := []string{"null", "-", vh.Hex(r.Bytes(1 + r.Intn(40))), vh.Hex(genUUIDBytes(r))}[r.Intn(4)]
+		op := fmt.Sprintf("ucqlum %s %s %s", col, []string{"direct", "nullable"}[r.Intn(2)], data)
+		out.Case(op, exec(op), "ucqlum", i < 8)
+		op = fmt.Sprintf("mcqlm %s %s %s", col, []string{"value", "ptr", "nilptr"}[r.Intn(3)], data)
+		out.Case(op, exec(op), "mcqlm", i < 8)
+	}
 	// nullable destinations **T of gocql.Unmarshal (null / empty / 16 bytes / wrong lengths; pointer nil or pointing to
 	// a value that must not be touched), *UUID values of gocql.Marshal
 	for i := 0; i < 800*mult; i++ {
@@ -1111,4 +1124,97 @@ func runErrs(r *vh.Rng, out *vh.Out, mult int) {
 		a = exec(op)
 		out.Case(op, a, "eucqlt/"+col+"/"+a[:1], true)
 	}
+}
+
+// ---- user types: Unmarshaler destinations and Marshaler values of uuid / timeuuid columns
+
+type spyCQL struct {
+	called bool
+	typ    gocql.Type
+	data   []byte
+	isNil  bool
+}
+
+func (s *spyCQL) UnmarshalCQL(info gocql.TypeInfo, data []byte) error {
+	s.called, s.typ, s.isNil = true, info.Type(), data == nil
+	s.data = append([]byte{}, data...)
+	return nil
+}
+
+type spyM struct{ b []byte }
+
+func (s spyM) MarshalCQL(info gocql.TypeInfo) ([]byte, error) { return s.b, nil }
+
+func execCustom(w []string, hx func(int) []byte) string {
+	var info gocql.TypeInfo
+	switch w[1] {
+	case "uuid":
+		info = gocql.NewNativeType(4, gocql.TypeUUID, "")
+	case "timeuuid":
+		info = gocql.NewNativeType(4, gocql.TypeTimeUUID, "")
+	default:
+		panic("bad-op: column type")
+	}
+	var data []byte
+	if w[3] != "null" {
+		data = append([]byte{}, hx(3)...)
+	}
+	show := func(b []byte, isNil bool) string {
+		if isNil {
+			return "null"
+		}
+		return vh.Hex(b)
+	}
+	colOf := func(t gocql.Type) string {
+		switch t {
+		case gocql.TypeUUID:
+			return "uuid"
+		case gocql.TypeTimeUUID:
+			return "timeuuid"
+		}
+		return "OTHER-TYPE"
+	}
+	switch w[0] {
+	case "ucqlum":
+		switch w[2] {
+		case "direct":
+			var s spyCQL
+			err := gocql.Unmarshal(info, data, &s)
+			if !s.called {
+				return stat(err) + " notcalled"
+			}
+			return stat(err) + " called " + colOf(s.typ) + " " + show(s.data, s.isNil)
+		case "nullable":
+			old := &spyCQL{}
+			p := old
+			err := gocql.Unmarshal(info, data, &p)
+			switch {
+			case old.called:
+				return stat(err) + " OLD-POINTEE-CALLED"
+			case p == nil:
+				return stat(err) + " nilptr"
+			case p == old || !p.called:
+				return stat(err) + " notcalled"
+			}
+			return stat(err) + " called " + colOf(p.typ) + " " + show(p.data, p.isNil)
+		}
+	case "mcqlm":
+		var v interface{}
+		switch w[2] {
+		case "value":
+			v = spyM{data}
+		case "ptr":
+			v = &spyM{data}
+		case "nilptr":
+			v = (*spyM)(nil)
+		default:
+			panic("bad-op: value kind")
+		}
+		b, err := gocql.Marshal(info, v)
+		if err != nil {
+			return "err"
+		}
+		return "ok " + show(b, b == nil)
+	}
+	panic("bad-op: custom")
 }
